@@ -633,6 +633,56 @@ def ob_tips():
     return Ob("C01.tips", "V", body, clause="tip compatibility tables (finite, exhaustive)", funcs=FUNCS)
 
 
+def ob_general_alphabet():
+    """general alphabets whose state codes have MORE than one character (the data type's `size`): the tip vectors / tip states that
+    reach the pruning functions through the real compress_alignment(_states) are the indicator vectors of the codes in the alignment"""
+    def body():
+        from torchtree.evolution.alignment import Alignment, Sequence
+        from torchtree.evolution.datatype import GeneralDataType
+        from torchtree.evolution.site_pattern import compress_alignment, compress_alignment_states
+        from torchtree.evolution.taxa import Taxa, Taxon
+        n = 0
+        for codes, amb in ((("00", "01", "10", "11"), {"0?": ["00", "01"], "??": ["00", "01", "10", "11"]}),
+                           (("ab", "cd", "ef"), {}), (("x", "y", "z"), {"w": ["x", "y"]}), (("AAA", "CCC"), {})):
+            size = len(codes[0])
+            dt = GeneralDataType(None, codes, dict(amb))
+            names = ["t0", "t1", "t2"]
+            taxa = Taxa("taxa", [Taxon(nm, {}) for nm in names])
+            symbols = list(codes) + list(amb) + ["?" * size]
+            cols = [(symbols[(i + j) % len(symbols)] for j in range(3)) for i in range(len(symbols) + 1)]
+            cols = [tuple(c) for c in cols]
+            seqs = ["".join(c[k] for c in cols) for k in range(3)]
+            aln = Alignment("a", [Sequence(nm, sq) for nm, sq in zip(names, seqs)], taxa, dt)
+
+            def vec(sym, use_amb=True):
+                if sym in codes:
+                    return tuple(1.0 if c == sym else 0.0 for c in codes)
+                if sym in amb and use_amb:
+                    return tuple(1.0 if c in amb[sym] else 0.0 for c in codes)
+                return (1.0,) * len(codes)
+            from collections import Counter
+            want = Counter(tuple(vec(sy) for sy in col) for col in cols)
+            parts, w = compress_alignment(aln, None, True)
+            got = Counter()
+            for p_ in range(len(w)):
+                got[tuple(tuple(float(v) for v in parts[i][:, p_]) for i in range(3))] += int(w[p_])
+            n += 1
+            if got != want:
+                raise Refuted("GeneralDataType with codes %s: the tip vectors produced by compress_alignment are not the indicators of the codes (e.g. %s)" % (
+                    list(codes), [k for k in got if k not in want][:1]), witness={"codes": list(codes), "sequences": seqs}, confirmed=True)
+            st, w2 = compress_alignment_states(aln)
+            want_s = Counter(tuple(codes.index(sy) if sy in codes else len(codes) for sy in col) for col in cols)
+            got_s = Counter()
+            for p_ in range(len(w2)):
+                got_s[tuple(min(int(st[i][p_]), len(codes)) for i in range(3))] += int(w2[p_])
+            n += 1
+            if got_s != want_s:
+                raise Refuted("GeneralDataType with codes %s: the tip states produced by compress_alignment_states are not the indices of the codes" % (list(codes),),
+                              witness={"codes": list(codes), "sequences": seqs, "got": [list(k) for k in got_s], "want": [list(k) for k in want_s]}, confirmed=True)
+        return {"backend": "enum", "cases": n, "statement": "general alphabets with codes of 1, 2 and 3 characters (with ambiguity codes): tip vectors / tip states are those of the codes"}
+    return Ob("C01.tips.general_alphabet", "B", body, clause="tip compatibility for general alphabets with multi-character codes (bounded)", funcs=FUNCS)
+
+
 def ob_compress(tier, seed):
     def body():
         from torchtree.evolution.alignment import Alignment, Sequence
@@ -1019,5 +1069,6 @@ def obligations(tier, seed):
         obs.append(ob_postorder(T, tier, seed))
     obs.append(ob_tips())
     obs.append(ob_compress(tier, seed))
+    obs.append(ob_general_alphabet())
     obs.append(ob_fasta())
     return obs
